@@ -186,14 +186,21 @@ fn t_delete<const N: usize>() {
     kani::cover!(m.find(id).is_none(), "delete of an unknown id");
 }
 
-/// update(id, w) with the known-finding region R (F-C01-update) excluded:
-/// R == growth larger than the free space.
+/// update(id, w). The known-finding region R (F-C01-update) == growth larger than the free space: inside R only the BOUND
+/// `used <= max` is excused; the accounting (total moves by exactly the delta, the id carries the new weight, nobody else moves,
+/// the statistics) is required everywhere. Excluded altogether: R' == the i64 addition itself overflows (the F-C01-update /
+/// C17 part of the finding: debug builds panic there).
 fn t_update_outside_region<const N: usize>() {
     let (cw, m) = arbitrary::<N>();
     let id: KeyId = kani::any();
     let w: Weight = kani::any();
     kani::assume(w > 0);
-    if let Some(e) = m.find(id) { kani::assume(w - e.weight <= m.max - m.used); }
+    let mut in_region = false;
+    if let Some(e) = m.find(id) {
+        kani::assume((m.used as i128) + (w as i128) - (e.weight as i128) <= i64::MAX as i128);
+        kani::assume((w as i128) - (e.weight as i128) >= i64::MIN as i128);
+        in_region = (w as i128) - (e.weight as i128) > (m.max as i128) - (m.used as i128);
+    }
     let updated_before = cw.stats_counter.keys_updated();
     let added_before = cw.stats_counter.weight_added();
     let removed_before = cw.stats_counter.weight_removed();
@@ -217,7 +224,8 @@ fn t_update_outside_region<const N: usize>() {
         }
     }
     assert!(cw.stats_counter.weight_removed() == removed_before);
-    assert!(0 <= cw.get_weight_used() && cw.get_weight_used() <= m.max);
+    assert!(0 <= cw.get_weight_used());
+    if !in_region { assert!(cw.get_weight_used() <= m.max); }
     assert!(cw.key_weights.len() == m.n);
     let mut i = 0;
     while i < N {
@@ -232,6 +240,7 @@ fn t_update_outside_region<const N: usize>() {
     kani::cover!(m.find(id).is_some() && m.n == N, "update of a resident id");
     kani::cover!(m.find(id).is_some() && w < m.find(id).unwrap().weight, "weight decrease");
     kani::cover!(m.find(id).is_some() && w > m.find(id).unwrap().weight, "weight increase");
+    kani::cover!(in_region, "growth beyond the free space (accounting still required)");
 }
 
 /// The region itself: is there an input in R for which the bound is breached (or the addition
